@@ -1,6 +1,7 @@
 package main
 
 import (
+	"go/constant"
 	"go/token"
 	"sort"
 
@@ -66,6 +67,26 @@ func pcField(v ssa.Value) (string, bool) {
 // modeCond evaluates a branch condition that is a (negated) load of PrintCtx.jsonMode / noColor.
 func modeCond(cond ssa.Value, m Mode) (bool, bool) {
 	c, neg := normCond(cond)
+	if b, ok := c.(*ssa.BinOp); ok && (b.Op == token.EQL || b.Op == token.NEQ) {
+		// a comparison of a mode-classifying helper's result with a constant (switch pc.flavor() { case ... })
+		for _, xy := range [][2]ssa.Value{{b.X, b.Y}, {b.Y, b.X}} {
+			k, ok := xy[1].(*ssa.Const)
+			if !ok || k.Value == nil {
+				continue
+			}
+			if r := modeConstOf(xy[0], m, 0); r != nil && r.Value != nil {
+				eq := constant.Compare(r.Value, token.EQL, k.Value)
+				return (eq == (b.Op == token.EQL)) != neg, true
+			}
+		}
+		return false, false
+	}
+	if cl, ok := c.(*ssa.Call); ok {
+		if r := modeConstOf(cl, m, 0); r != nil && r.Value != nil && r.Value.Kind() == constant.Bool {
+			return constant.BoolVal(r.Value) != neg, true
+		}
+		return false, false
+	}
 	u, ok := c.(*ssa.UnOp)
 	if !ok || u.Op != token.MUL {
 		return false, false
@@ -81,6 +102,80 @@ func modeCond(cond ssa.Value, m Mode) (bool, bool) {
 		return m.NoColor != neg, true
 	}
 	return false, false
+}
+
+// modeConstOf: the constant a call of a private helper over the PrintCtx returns in mode m, when the helper's
+// decision is made by the mode bits alone (every branch on the way to its return folds under the mode).
+func modeConstOf(v ssa.Value, m Mode, depth int) *ssa.Const {
+	cl, ok := v.(*ssa.Call)
+	if !ok || depth > 2 {
+		return nil
+	}
+	fn := cl.Call.StaticCallee()
+	if fn == nil || len(fn.Blocks) == 0 || len(fn.Params) != 1 || typeName(fn.Params[0].Type()) != "PrintCtx" {
+		return nil
+	}
+	if fn.Signature.Results().Len() != 1 {
+		return nil
+	}
+	b := fn.Blocks[0]
+	var prev *ssa.BasicBlock
+	for steps := 0; steps < 64; steps++ {
+		for _, in := range b.Instrs {
+			switch in.(type) {
+			case *ssa.Call, *ssa.Store, *ssa.Go, *ssa.Defer, *ssa.Send, *ssa.MapUpdate, *ssa.Panic:
+				if c, ok := in.(*ssa.Call); ok && modeConstOf(c, m, depth+1) != nil {
+					continue
+				}
+				return nil
+			}
+		}
+		switch t := b.Instrs[len(b.Instrs)-1].(type) {
+		case *ssa.Return:
+			r := t.Results[0]
+			for {
+				ph, ok := r.(*ssa.Phi)
+				if !ok || ph.Block() != b || prev == nil {
+					break
+				}
+				found := false
+				for i, pb := range b.Preds {
+					if pb == prev {
+						r, found = ph.Edges[i], true
+						break
+					}
+				}
+				if !found {
+					return nil
+				}
+				break
+			}
+			if k, ok := r.(*ssa.Const); ok {
+				return k
+			}
+			if cv, ok := modeCond(r, m); ok {
+				return ssa.NewConst(constant.MakeBool(cv), r.Type())
+			}
+			return nil
+		case *ssa.If:
+			cv, ok := modeCond(t.Cond, m)
+			if !ok {
+				return nil
+			}
+			prev = b
+			if cv {
+				b = b.Succs[0]
+			} else {
+				b = b.Succs[1]
+			}
+		case *ssa.Jump:
+			prev = b
+			b = b.Succs[0]
+		default:
+			return nil
+		}
+	}
+	return nil
 }
 
 // feasibleSuccs returns the successors of b that are feasible in mode m.
